@@ -523,6 +523,24 @@ class Interp:
                 return self.funcs[cn][0]
         return None
 
+    def resolve_into(self, callee):
+        """`<X as Into<Y>>::into` is the blanket impl over a repository `impl From<X> for Y`"""
+        m = re.match(r'^<(.+) as Into<(.+)>>::into$', callee.strip())
+        if not m: return None
+        x, y = m.group(1), m.group(2)
+        xh = ty_head(x) if not x.startswith('(') else x
+        best = None
+        for name, fs in self.funcs.items():
+            if not name.endswith('::from') or '<impl at' not in name: continue
+            st_, tr_ = self.find_impl_self(name)
+            if st_ != ty_head(y) or not tr_ or not tr_.startswith('From'): continue
+            f = fs[0]
+            a0 = split_top(f.args)[0] if f.args.strip() else ''
+            aty = a0.split(': ', 1)[1] if ': ' in a0 else ''
+            if (x.startswith('(') and aty.startswith('(')) or (not x.startswith('(') and ty_head(aty) == xh):
+                best = f
+        return best
+
     _SPAN = re.compile(r'\{(?:closure|async block|async closure|coroutine|async fn body)@([^}(]+?)(?: \(#\d+\))?\}')
     def _first_arg_index(self):
         """closure / coroutine bodies keyed by the source span printed in their first parameter's type"""
@@ -624,6 +642,8 @@ class Interp:
         for gk, gv in gen.items():
             callee_r = re.sub(r'\b%s\b' % gk, gv, callee_r)
         fn = self.resolve_fn(callee_r)
+        if fn is None:
+            fn = self.resolve_into(callee_r)
         if fn is not None:
             g2 = {}
             m = re.search(r'::<([^<>]*(?:<[^<>]*>)?[^<>]*)>$', callee_r)
